@@ -235,15 +235,19 @@ def impl_collective(d, cols, Rg, layout='range'):
     return [float(v) for v in amp.to_numpy()], [float(v) for v in mean.to_numpy()]
 
 
-def impl_collective_multi(ds, cols, Rg):
+def impl_collective_multi(ds, cols, Rg, frame=None):
     """DataFrame accessor with one Haigh diagram per element (DataFrame of parameters, broadcast over
     the cycles of each element).  ds: list of diagrams of the same kind; the collective has a two-level
-    index (element_id, cycle) with the same cycles for every element.  Returns {element position: (amps, means)}."""
+    index (element_id, cycle) with the same cycles for every element.  Returns {element position: (amps, means)}.
+    frame = {'ids': [...], 'coll': [...]}: ids[k] = element id of ds[k] (the parameter frame lists its rows in the order
+    of ds, so ids that are not ascending give a parameter frame whose index is not sorted -- node ids in mesh order);
+    coll = the order in which the collective lists the elements (default: as the parameter frame)."""
     import pylife.strength.meanstress  # noqa: F401
     kind, x, y = cols
     n = len(x)
-    eids = [7 + 3 * i for i in range(len(ds))]
-    idx = pd.MultiIndex.from_product([eids, list(range(n))], names=['element_id', 'cycle'])
+    eids = list(frame['ids']) if frame else [7 + 3 * i for i in range(len(ds))]
+    coll = list(frame['coll']) if frame and frame.get('coll') else eids
+    idx = pd.MultiIndex.from_product([coll, list(range(n))], names=['element_id', 'cycle'])
     a, b = np.tile(np.asarray(x, float), len(ds)), np.tile(np.asarray(y, float), len(ds))
     if kind == 'range_mean':
         df = pd.DataFrame({'range': a, 'mean': b}, index=idx)
@@ -266,7 +270,8 @@ def hist_series(kind, xb, yb, counts, extra=None, order=None):
     """A load histogram: kind 'range_mean' / 'from_to'; xb, yb = class breaks of the two levels; counts[i][j]
     (optionally one matrix per value of an extra index level).  order = {'levels': [names in another order],
     'perm': [row positions]}: the same matrix with the index levels reordered and / or the rows listed in another order
-    than the lexicographic product order (as after .sample(frac=1), a sort by cycles, a concat of partial matrices)."""
+    than the lexicographic product order (as after .sample(frac=1), a sort by cycles, a concat of partial matrices);
+    'keep': [row positions]: a SPARSE matrix that lists only these rows (mat[mat > 0], a matrix without its diagonal)."""
     xi = pd.IntervalIndex.from_breaks(np.asarray(xb, float))
     yi = pd.IntervalIndex.from_breaks(np.asarray(yb, float))
     names = ['range', 'mean'] if kind == 'range_mean' else ['from', 'to']
@@ -282,6 +287,8 @@ def hist_series(kind, xb, yb, counts, extra=None, order=None):
             ser = ser.reorder_levels(order['levels'])
         if order.get('perm') is not None:
             ser = ser.iloc[list(order['perm'])]
+        if order.get('keep') is not None:      # sparse matrix: only these rows (positions after perm) are listed
+            ser = ser.iloc[list(order['keep'])]
     return ser
 
 
